@@ -23,6 +23,7 @@ func init() {
 		ruleKind(c, "C04.S7")
 		ruleSlot(c, "C04.S8")
 		ruleV7(c, "C04.S9")
+		ruleF10(c, "C04.S10")
 	}
 }
 
